@@ -45,33 +45,36 @@ def r10_2(ctx, rep, roles):
     r = rep.rule("R10.2", "formula shape: mean = (sum + w*prior)/(len + w); phi = elapsed/mean; parameters flow from the configuration")
     fx = ctx.fx
     cm = [f for f in fx.fns.values() if f.get("impl_self") == ADS and f.get("output") == "f64" and len(f.get("inputs", [])) == 3]
-    if len(cm) != 1:
-        rep.violation("C10/R10.2/anchor", "cannot find AdditiveSmoothing::compute_mean", None)
-        return
-    cm = cm[0]
-    rep.anchor("compute_mean", where(cm))
     eng = sym.Engine(fx)
-    rows = eng.table(cm["id"], arg_terms={1: ("ptr", ("S", "self"), ()), 2: ("obj", ("S", "len")), 3: ("obj", ("S", "sum"))})
-    W = ("proj", ("obj", ("S", "self")), F(ADS, "prior_weight"))
-    M = ("proj", ("obj", ("S", "self")), F(ADS, "prior_mean"))
-    n = 0
-    bad = None
-    for row in rows:
-        if row.exit != "return":
-            continue
-        for s_, w, m, ln in itertools.product((Fr(0), Fr(3, 2), Fr(7)), (Fr(5), Fr(1, 2)), (Fr(1), Fr(4)), (1, 3, 1000)):
-            n += 1
-            asg = {("obj", ("S", "sum")): s_, W: w, M: m, ("obj", ("S", "len")): ln}
-            try:
-                got = oe.ev(row.ret, asg)
-            except oe.NeedAtom as e:
-                bad = bad or "mean depends on %s" % sym.fmt(e.atom)[:80]
-                break
-            want = (s_ + w * m) / (ln + w)
-            if got != want:
-                bad = bad or "sum=%s w=%s prior=%s len=%s: mean=%s expected %s" % (s_, w, m, ln, got, want)
-    rep.obligation(bad is None and n > 0, "C10/R10.2/mean-formula", "compute_mean: %s" % bad, where(cm), evaluations=n,
-                   sample="mean == (sum + w*prior)/(len + w) on %d rational points" % n)
+    if len(cm) != 1:
+        # the helper computing the mean has another shape (a parameter struct, a free function, inlined ...): the mean
+        # formula is then decided only through phi below, which inlines whatever computes it, on the same kind of grid
+        rep.count("mean-formula-decided-through-phi", 1)
+        cm = None
+    if cm is not None:
+        cm = cm[0]
+        rep.anchor("compute_mean", where(cm))
+        rows = eng.table(cm["id"], arg_terms={1: ("ptr", ("S", "self"), ()), 2: ("obj", ("S", "len")), 3: ("obj", ("S", "sum"))})
+        W = ("proj", ("obj", ("S", "self")), F(ADS, "prior_weight"))
+        M = ("proj", ("obj", ("S", "self")), F(ADS, "prior_mean"))
+        n = 0
+        bad = None
+        for row in rows:
+            if row.exit != "return":
+                continue
+            for s_, w, m, ln in itertools.product((Fr(0), Fr(3, 2), Fr(7)), (Fr(5), Fr(1, 2)), (Fr(1), Fr(4)), (1, 3, 1000)):
+                n += 1
+                asg = {("obj", ("S", "sum")): s_, W: w, M: m, ("obj", ("S", "len")): ln}
+                try:
+                    got = oe.ev(row.ret, asg)
+                except oe.NeedAtom as e:
+                    bad = bad or "mean depends on %s" % sym.fmt(e.atom)[:80]
+                    break
+                want = (s_ + w * m) / (ln + w)
+                if got != want:
+                    bad = bad or "sum=%s w=%s prior=%s len=%s: mean=%s expected %s" % (s_, w, m, ln, got, want)
+        rep.obligation(bad is None and n > 0, "C10/R10.2/mean-formula", "compute_mean: %s" % bad, where(cm), evaluations=n,
+                       sample="mean == (sum + w*prior)/(len + w) on %d rational points" % n)
     # phi = elapsed / mean(len, sum) ; None otherwise
     ph = roles.sw_phi
     rep.anchor("phi", where(ph))
@@ -101,7 +104,7 @@ def r10_2(ctx, rep, roles):
         if not ok:
             bad = bad or "phi's numerator is not last_heartbeat.elapsed()"
             continue
-        for e_, s_, w, m, ln in itertools.product((Fr(0), Fr(9)), (Fr(1), Fr(6)), (Fr(5),), (Fr(2),), (1, 4)):
+        for e_, s_, w, m, ln in itertools.product((Fr(0), Fr(9)), (Fr(1), Fr(6)), (Fr(5), Fr(1, 2)), (Fr(2), Fr(4)), (1, 4, 1000)):
             n += 1
             asg = {el[0]: e_, SUM: s_, W2: w, M2: m, IDX: ln, FILLED: False}
             for a in lens:
